@@ -115,6 +115,23 @@ def programs_call(tier):
         yield tuple(par), (None, 'call') + ('plain',) * depth, ('none',) * len(par), 'single'
 
 
+def programs_side(tier):
+    """events that have, next to their (possibly generator) handler, a second plain handler that raises"""
+    maxn = 4 if tier == 'quick' else 5
+    for par in shapes(maxn):
+        n = len(par)
+        opts = []
+        for i in range(1, n):
+            opts.append([(e, m) for e in ('plain', 'gen') for m in ('none', 'sideraise')])
+        for combo in itertools.product(*opts):
+            edges = (None,) + tuple(c[0] for c in combo)
+            for rootmark in ('none', 'sideraise'):
+                marks = (rootmark,) + tuple(c[1] for c in combo)
+                if 'sideraise' not in marks:
+                    continue
+                yield par, edges, marks, 'single'
+
+
 def build(program):
     par, edges, marks, variant = program
     n = len(par)
@@ -148,6 +165,8 @@ def build(program):
                 steps.append(('raise',))
             script = steps
         handlers.append(('h%d' % i, 'n%d' % i, 2, script))
+        if marks[i] == 'sideraise':
+            handlers.append(('side%d' % i, 'n%d' % i, 3, [('raise',)]))
         if marks[i] == 'stop':
             # a generator handler cannot stop its event synchronously: a separate plain handler does it
             handlers.append(('stopper%d' % i, 'n%d' % i, 1.5, [('stop',)]))
@@ -239,7 +258,7 @@ def _work(part, nparts, payload):
     tier, seed = payload
     core.quiet_stderr()
     st = core.Stats()
-    for idx, program in enumerate(itertools.islice(itertools.chain(programs(tier), programs_call(tier)), part, None, nparts)):
+    for idx, program in enumerate(itertools.islice(itertools.chain(programs(tier), programs_call(tier), programs_side(tier)), part, None, nparts)):
         w, res = execute(program)
         st.executions += 1
         st.transitions += len(w.log)
@@ -255,6 +274,8 @@ def _work(part, nparts, payload):
             st.counters['programs_firing_from_generator_steps'] += 1
         if 'call' in program[1]:
             st.counters['programs_with_call_edges'] += 1
+        if 'sideraise' in program[2]:
+            st.counters['programs_with_raising_handler_next_to_generator_handler'] += 1
         if part == seed % nparts and idx in (3, 400):
             st.sample({'program': pj(program), 'log': [list(x) for x in w.log][:50]})
         for kind, text in bad:
@@ -263,7 +284,7 @@ def _work(part, nparts, payload):
 
 
 def run(tier, seed, workers):
-    total = sum(1 for _ in programs(tier)) + sum(1 for _ in programs_call(tier))
+    total = sum(1 for _ in programs(tier)) + sum(1 for _ in programs_call(tier)) + sum(1 for _ in programs_side(tier))
     st = core.parallel(_work, (tier, seed), workers, nparts=workers * 8)
     probe = ((None, 0, 1), (None, 'gen', 'plain'), ('none', 'none', 'stop'), 'single')
     if execute(probe)[0].log != execute(probe)[0].log:
